@@ -26,9 +26,46 @@ type AReq struct {
 	Opn  string `json:"opn"`
 	Vars string `json:"vars"`
 	Ext  string `json:"ext"`
+	Acc  string `json:"acc"` // Accept header: - | json | gql | any | html | multi
 }
 
-func (r AReq) label() string { return r.Tr + "|" + r.Q + "|" + r.Opn + "|" + r.Vars + "|" + r.Ext }
+func (r AReq) label() string {
+	s := r.Tr + "|" + r.Q + "|" + r.Opn + "|" + r.Vars + "|" + r.Ext
+	if r.Acc != "" && r.Acc != "-" {
+		s += "|" + r.Acc
+	}
+	return s
+}
+
+// acceptHeader renders the Accept classes of the model.
+func acceptHeader(acc string) string {
+	switch acc {
+	case "json":
+		return "application/json"
+	case "gql":
+		return "application/graphql-response+json"
+	case "any":
+		return "*/*"
+	case "html":
+		return "text/html"
+	case "multi":
+		return "text/html, application/json;q=0.9"
+	}
+	return ""
+}
+
+// ctName renders the media type classes of the model.
+func ctName(ct string) string {
+	switch ct {
+	case "json":
+		return "application/json"
+	case "gql":
+		return "application/graphql-response+json"
+	case "cj":
+		return "application/json; charset=utf-8"
+	}
+	return ct
+}
 
 // Act is the label of a request-level edge.
 type Act struct {
@@ -43,10 +80,13 @@ type Act struct {
 		Ext  [][2]string `json:"ext"`
 	} `json:"own"`
 	Out string `json:"out"`
+	Ct  string `json:"ct"` // media type class the model prescribes ("" = transport without configured headers)
+	St  string `json:"st"` // status class: 200 | 400 | 422 | own | ""
 }
 
 // Concrete is one concrete request: an HTTP request or one websocket operation.
 type Concrete struct {
+	Cfg     string      `json:"server_config,omitempty"` // configuration the server is constructed with ("" = none)
 	WS      bool        `json:"ws,omitempty"`
 	Method  string      `json:"method,omitempty"`
 	Query   string      `json:"raw_query,omitempty"`
@@ -142,8 +182,17 @@ func jsonObject(r AReq, emptyQuery bool) string {
 // concretise renders an abstract request; xreq is the value of the X-Req
 // header the resolvers echo.  X-Verif-Id is the harness' own correlation
 // header; its value is filled in when the request is sent.
-func concretise(r AReq, xreq string) Concrete {
-	c := Concrete{Headers: [][2]string{{"X-Verif-Id", ""}, {"X-Req", xreq}}}
+func concretise(r AReq, xreq string) Concrete { return concretiseOn("", r, xreq) }
+
+// concretiseOn: the request as sent to a server constructed with configuration cfg.
+func concretiseOn(cfg string, r AReq, xreq string) Concrete {
+	if cfg == "none" {
+		cfg = ""
+	}
+	c := Concrete{Cfg: cfg, Headers: [][2]string{{"X-Verif-Id", ""}, {"X-Req", xreq}}}
+	if a := acceptHeader(r.Acc); a != "" && r.Tr != "WS" {
+		c.Headers = append(c.Headers, [2]string{"Accept", a})
+	}
 	switch r.Tr {
 	case "WS":
 		c.WS = true
@@ -386,7 +435,7 @@ func (o *oracle) alone(cr Concrete) (Resp, error) {
 		if !cr.WS && cr.Method == "POST" {
 			defer func() { o.dirty = true }()
 		}
-		ls := startServer()
+		ls := startServerCfg(cr.Cfg)
 		defer ls.close()
 		c := newClient(ls)
 		defer c.close()
